@@ -27,7 +27,7 @@ sdir = f"{src}/{pid}/{mk}"
 ddir = f"/verif/seeded/{pid}/{mk}"
 os.makedirs(ddir, exist_ok=True)
 for f in os.listdir(sdir):
-    if os.path.abspath(sdir) != os.path.abspath(ddir):
+    if os.path.abspath(sdir) != os.path.abspath(ddir) and not os.path.exists(os.path.join(ddir, f)):
         shutil.copy(os.path.join(sdir, f), ddir)
 patch = f"{ddir}/patch.diff"
 demo = next((f"{ddir}/{f}" for f in os.listdir(ddir) if f.startswith("demo.")), None)
@@ -105,7 +105,11 @@ try:
 except Exception:
     meta = {}
 meta["property"] = pid
-meta["coordinator_verification"] = res
+if "error" in res and "does not apply" in res["error"] and "coordinator_verification" in meta and meta["coordinator_verification"].get("confirmed"):
+    # a later fix: commit touched the same lines; keep the verdict obtained when the change still applied
+    meta["coordinator_verification"]["stale"] = f"patch no longer applies on {res['repo_head']} (a later fix changed the same lines); verdict is from {meta['coordinator_verification'].get('repo_head')}"
+else:
+    meta["coordinator_verification"] = res
 json.dump(meta, open(mp, "w"), indent=1)
 print(pid, mk, "confirmed" if confirmed else "NOT-CONFIRMED", "| demo", res.get("demo_clean_rc"), res.get("demo_mutated_rc"),
       "| tests", res.get("tests", {}).get("mutated"), res.get("tests", {}).get("new_failures"),
